@@ -10,6 +10,7 @@ EXPLANATION = (
     "all its storage accesses inside one `with self.lock` region; the lock is created once, is re-entrant (nested acquisition "
     "through remove -> list), no other lock guards storage, and no blocking call runs inside a region; every mutating sqlite "
     "storage operation is a single transaction, so the lock-free readers (lookup, count) never observe half of one. "
+    'Also decided: every NameServer method touches the storage only under the lock; multi-statement reads of the sqlite storage run in one snapshot; `nsc register` is one safe remote call. '
     "Not decided: linearizability of histories, atomicity inside one storage method."
 )
 
@@ -36,6 +37,7 @@ def run(ctx, R, tier):
     ns = p.cls("Pyro5.nameserver.NameServer")
     R.rule("C15-R1", "every NameServer method with two or more storage accesses on one path performs all of them inside one `with self.lock` region", floor=8)
     R.rule("C15-R3", "every mutating sqlite storage operation is one transaction, so lock-free readers (lookup, count) never see half of it (shared with C14-R2)", floor=5)
+    R.rule("C15-R4", "the command line client keeps the atomicity: `nsc register` is one remote register(..., safe=True) call, not a check followed by an unsafe register", floor=1)
     R.rule("C15-R2", "one re-entrant lock created in __init__; storage is not accessed under another lock; no blocking call inside a lock region", floor=3)
 
     methods = {name: m for name, m in ns.methods.items() if name != "__init__"}
@@ -141,8 +143,17 @@ def run(ctx, R, tier):
                     "%s() takes no lock, so the storage method it uses reads a single snapshot (one statement, or BEGIN before the first of several)" % name, g.loc(),
                     "SqlStorage.%s runs %d SELECTs outside any transaction and NameServer.%s calls it without the lock: a registration committed in between makes it "
                     "return a (uri, metadata) pair that was never registered" % (sm, len(selects), name))
-    if n_free < 2:
-        raise AnalysisError("NameServer: the lock-free readers (lookup, count) vanished (%d)" % n_free)
+    R.note("lock-free storage readers among the NameServer methods: %d" % n_free)
+    # every NameServer operation touches the storage only while it holds the lock: MemoryStorage.remove_items deletes entry by entry, so a reader outside the lock
+    # would see one name of a group gone and the next still present although one single remove() is in progress
+    for name, m in sorted(methods.items()):
+        acc = storage_accesses(ctx, m, set())
+        if not acc:
+            continue
+        out_ = [a for a in acc if not any(dotted(it.context_expr) == LOCK for w in enclosing_withs(a) for it in w.items)]
+        R.check(not out_, "C15-R1", "NameServer.%s|storage-only-under-lock" % name, "every storage access of %s() lies in a `with self.lock` region" % name, m.loc(),
+                ("`%s` at %s reads the storage without the lock: it can run in the middle of another client's multi-entry operation" % (
+                    unparse(getattr(out_[0], "_parent", out_[0]), 60), m.loc(out_[0]))) if out_ else "")
 
     # ---------------------------------------------------------------- R2
     init = ns.methods.get("__init__")
@@ -178,3 +189,14 @@ def run(ctx, R, tier):
             "storage is also guarded by another lock at %s" % (other_locks[0][0].loc(other_locks[0][1]) if other_locks else ""))
     R.check(not blocking, "C15-R2", "NameServer|no-blocking-under-lock", "no sleep/join/socket call inside a lock region", ns.module.relpath,
             "`%s` blocks while the name server lock is held" % (unparse(blocking[0][1]) if blocking else ""))
+
+    # ---------------------------------------------------------------- R4
+    cr = ctx.fn("Pyro5.nsc.handle_command.cmd_register")
+    nscalls = [c for c in walk_no_nested(cr.node) if isinstance(c, ast.Call) and isinstance(c.func, ast.Attribute) and isinstance(c.func.value, ast.Name) and c.func.value.id == "namesrv"]
+    regs = [c for c in nscalls if c.func.attr == "register"]
+    ok = len(regs) == 1 and len(nscalls) == 1 and any(k.arg == "safe" and isinstance(k.value, ast.Constant) and k.value.value is True for k in regs[0].keywords)
+    R.check(ok, "C15-R4", "nsc.cmd_register|one-safe-call", "`nsc register` makes exactly one name server call: register(name, uri, safe=True)", cr.loc(),
+            "`nsc register` %s: two concurrent registrations of one name can both report success and the later silently replaces the earlier" % (
+                "asks the name server something else first and then registers without safe=True (check-then-act across two remote calls)" if len(nscalls) > 1
+                else "registers without safe=True"))
+
